@@ -417,3 +417,26 @@ def c13(r):
             if not (lab == 'excepted' and isinstance(p.exception(), UserExc) and p.exception().n == oc[1]):
                 out.append(F('c13-raise', 'a failing step ends EXCEPTED with its exception', dict(got=r.outcome(), ops=r.ops)))
     return out
+
+
+@monitor('c12pm')
+def c12pm(r):
+    """C12 on the process-control harness: a normal return with a missing required output still ends FINISHED with the result
+    preserved, but unsuccessful — whatever pause / play / future-cancellation requests are interleaved (a kill may win)."""
+    if not r.prog.get('missing_output'):
+        return []
+    p = r.p
+    lab = p.state.value
+    out = []
+    if lab == 'finished':
+        last = p._trace[-1][0] if p._trace else None
+        oc = r.prog['fns'].get(last, (0, None))[1]
+        if oc and oc[0] == 'stop' and (p.result() != oc[1] or p.successful()):
+            out.append(F('c12-unsuccessful-finish', 'missing outputs: FINISHED with the result preserved, but unsuccessful',
+                         dict(result=p.result(), successful=p.successful(), ops=r.ops)))
+    elif lab == 'excepted' and not isinstance(p.exception(), UserExc):
+        out.append(F('c12-finish-excepted:' + excname(p.exception()), 'missing outputs: still ends FINISHED (unsuccessful), not EXCEPTED',
+                     dict(exception=repr(p.exception()), ops=r.ops)))
+    elif lab not in ('killed', 'excepted'):
+        out.append(F('c12-not-finished', 'missing outputs: still ends FINISHED', dict(state=lab, ops=r.ops)))
+    return out
